@@ -94,15 +94,21 @@ type ecsUpstream struct {
 
 // ecsForwarded returns the ECS prefix of an upstream request.
 func ecsForwarded(req *dns.Msg) (s string, o *dns.EDNS0_SUBNET) {
-	opt := req.IsEdns0()
-	if opt == nil {
+	if req.IsEdns0() == nil {
 		return "", nil
 	}
+	// Every OPT record of the request counts: an upstream sees all of them.
 	n := 0
-	for _, x := range opt.Option {
-		if sn, ok := x.(*dns.EDNS0_SUBNET); ok {
-			o = sn
-			n++
+	for _, rr := range req.Extra {
+		opt, ok := rr.(*dns.OPT)
+		if !ok {
+			continue
+		}
+		for _, x := range opt.Option {
+			if sn, ok := x.(*dns.EDNS0_SUBNET); ok {
+				o = sn
+				n++
+			}
 		}
 	}
 	switch n {
@@ -341,6 +347,18 @@ func (q ecsQuery) msg(id uint16) *dns.Msg {
 	if q.DO || q.ECS != "" || q.EDNS {
 		m.SetEdns0(1232, q.DO)
 	}
+	if strings.HasPrefix(q.ECS, "twoopt:") {
+		// Two OPT records in one query (malformed per RFC 6891): the first one
+		// carries the client's ECS option, the second one is plain.
+		pfx := netip.MustParsePrefix(strings.TrimPrefix(q.ECS, "twoopt:"))
+		a := pfx.Addr().As4()
+		first := &dns.OPT{Hdr: dns.RR_Header{Name: ".", Rrtype: dns.TypeOPT}}
+		first.SetUDPSize(1232)
+		first.Option = append(first.Option, &dns.EDNS0_SUBNET{Code: dns.EDNS0SUBNET, Family: 1, SourceNetmask: uint8(pfx.Bits()), Address: net.IP(a[:])})
+		m.Extra = append([]dns.RR{first}, m.Extra...)
+
+		return m
+	}
 	if strings.HasPrefix(q.ECS, "dup:") {
 		// Two ECS options in one query.
 		opt := m.IsEdns0()
@@ -388,6 +406,11 @@ func (q ecsQuery) ecsPrefix() (p netip.Prefix, present, valid bool) {
 		return netip.Prefix{}, false, false
 	case "badfamily", "badlen":
 		return netip.Prefix{}, true, false
+	}
+	if strings.HasPrefix(q.ECS, "twoopt:") {
+		p, err := netip.ParsePrefix(strings.TrimPrefix(q.ECS, "twoopt:"))
+
+		return p, true, err == nil
 	}
 	if strings.HasPrefix(q.ECS, "dup:") {
 		// The first option is the one a server answers to.
